@@ -665,7 +665,17 @@ func zeroOf(c *irCtx, t string) (string, bool) {
 	return "", false
 }
 
+// a statement any part of which is outside the language is `.opaque` as a whole (never a half-translated statement)
 func (c *irCtx) stmt(s ast.Stmt) string {
+	before := len(c.bad)
+	out := c.stmt1(s)
+	if len(c.bad) > before {
+		return ".opaque"
+	}
+	return out
+}
+
+func (c *irCtx) stmt1(s ast.Stmt) string {
 	switch x := s.(type) {
 	case *ast.BlockStmt:
 		c.push()
